@@ -43,6 +43,9 @@ func pathOfVal(c *Ctx, v ssa.Value) string {
 	case *ssa.Slice:
 		return pathOfVal(c, x.X)
 	case *ssa.Convert:
+		if isInt(x.Type()) && isInt(x.X.Type()) && intBits(x.Type()) < intBits(x.X.Type()) {
+			return "narrowed(" + pathOfVal(c, x.X) + ")" // loses high bits: not a faithful copy
+		}
 		return pathOfVal(c, x.X)
 	case *ssa.ChangeType:
 		return pathOfVal(c, x.X)
@@ -99,9 +102,13 @@ func transfersOf(c *Ctx, fn *ssa.Function) []transfer {
 	return out
 }
 
+// hasTransfer: the whole value, or (for slices) every element, is moved from src to dst.
 func hasTransfer(ts []transfer, dst, src string) bool {
 	for _, t := range ts {
 		if t.dst == dst && t.src == src {
+			return true
+		}
+		if !strings.HasSuffix(dst, "[*]") && t.dst == dst+"[*]" && t.src == src+"[*]" {
 			return true
 		}
 	}
